@@ -999,7 +999,9 @@ def ishashable(obj: tp.Any) -> compat.TypeIs[tp.Hashable]:
         >>> ishashable(list())
         False
     """
-    return __hashgetter(obj) is not None
+    # Hashability is a property of the object's class: `list.__hash__` is `None` for
+    #   the sake of its instances, yet the class object `list` itself hashes fine.
+    return __hashgetter(obj.__class__) is not None
 
 
 @compat.cache
